@@ -23,7 +23,7 @@ PROFILES = {
                   nested=0.15, ctx=0.0, dcal=0.2, dyn=0.75, desc=0.0, arbitrary_names=0.1,
                   criteria_forms=("cmp", "list"), aligned=0.5),
     "flat": dict(max_containers=5, max_depth=2, fanout=4, fields=(1, 6), kinds=("int", "int", "float", "enum", "bool",
-                 "str", "bin", "time", "calint", "lenint", "mixedwide"), nested=0.0, ctx=0.2, dcal=0.3, dyn=0.3, desc=0.0,
+                 "str", "bin", "bin", "time", "calint", "lenint", "lenint", "mixedwide"), nested=0.0, ctx=0.2, dcal=0.3, dyn=0.6, desc=0.0,
                  arbitrary_names=0.0, criteria_forms=("cmp",), aligned=0.8, flat=True),
     "lengths": dict(max_containers=4, max_depth=2, fanout=2, fields=(1, 4), kinds=("str", "bin", "bin", "lenint", "int",
                     "float"), nested=0.2, ctx=0.0, dcal=0.15, dyn=0.8, desc=0.0, arbitrary_names=0.1,
